@@ -4,6 +4,7 @@ import AidlVerif.Props.C07
 import AidlVerif.Props.C05
 import AidlVerif.Props.C10
 import AidlVerif.Props.C09
+import AidlVerif.Props.C08
 
 /-
   Model driver: one JSON case per input line, one JSON verdict per output line.
@@ -131,8 +132,22 @@ def handleC09 (c : ValCtx) (v : Verdict) : Verdict :=
   let nm := (c.out.flatMap fun fr => match fr.ast with | none => [] | some b => Spec.methodsOf b).length
   { v with nontrivial := nm ≥ 2, dist := bump (bump v.dist s!"methods={min nm 6}") s!"reports={min reports.length 4}" }
 
+def handleC08 (c : ValCtx) (v : Verdict) : Verdict :=
+  let v := v.addCorr "C08" (decide (c.model.map Spec.C08.proj = c.out.map Spec.C08.proj))
+  let v := v.addSpec "C08" (c.out.all Spec.C08.holdsFile)
+  let v := v.addAssume "C08" (c.stage1.all fun fr => match groupsOf c fr with
+    | some (g, _) => decide (Props.C08.Fresh g)
+    | none => true)
+  let conts := c.out.flatMap fun fr => match fr.ast with
+    | none => []
+    | some b => (allTypesWalk b).filterMap fun t =>
+        if t.kind = .array ∨ t.kind = .list ∨ t.kind = .map then
+          some (s!"{catName (Spec.Category.of t.kind)}<" ++ ", ".intercalate (t.gens.map fun e => catName (Spec.Category.of e.kind)) ++ ">")
+        else none
+  { v with nontrivial := !conts.isEmpty, dist := conts.foldl bump v.dist }
+
 def valHandlers : List (String × (ValCtx → Verdict → Verdict)) :=
-  [("C07", handleC07), ("C05", handleC05), ("C10", handleC10), ("C09", handleC09)]
+  [("C07", handleC07), ("C05", handleC05), ("C10", handleC10), ("C09", handleC09), ("C08", handleC08)]
 
 def opValidate (prop : String) (j : Json) : R Verdict := do
   let impl ← fld j "impl"
